@@ -121,6 +121,17 @@ def gateshape(cx, fn):
                 cands = [f for f in full if fn.in_body_of(f, blk[i - 1], 'body')]
                 if cands:
                     sib = cands[0]
+        if sib is None:
+            # guard-clause spelling (`if not full_output: return gated` ... `return Output(...)`): the sibling is
+            # the full return that runs under the same conditions but for the outcome of the full_output test
+            from ..rules import run_context
+            def flip(c):
+                return sorted(('when ' + x[7:]) if x.startswith('unless ') and x[7:] == 'full_output' else
+                              (('unless ' + x[5:]) if x.startswith('when ') and x[5:] == 'full_output' else x) for x in c)
+            cs = run_context(fn, r, None, resolved=False) or []
+            cands = [f for f in full if sorted(run_context(fn, f, None, resolved=False) or []) == flip(cs)]
+            if len(cands) == 1:
+                sib = cands[0]
         cx.need(sib is not None, '%s: short return without sibling full return' % fn.qual)
         fields = output_ctor(fn, sib.value)
         gd = kwarg(sib.value, 'gated_data', fields.index('gated_data'))
